@@ -507,6 +507,7 @@ func (f *walletFam) Gen(r *hx.Run) {
 		type ent struct {
 			sym string
 			pw  []byte
+			kd  keyKind
 		}
 		var ents []ent
 		reloaded := false
@@ -536,7 +537,7 @@ func (f *walletFam) Gen(r *hx.Run) {
 				}
 				out := r.Do(fmt.Sprintf("new %s %s %d %s %s", hx.Hex([]byte(labels())), kd.alg, kd.curve, sch, hx.Hex(pw)))
 				if strings.HasPrefix(out, "ok A") {
-					ents = append(ents, ent{strings.Fields(out)[1], pw})
+					ents = append(ents, ent{strings.Fields(out)[1], pw, kd})
 					used["new:"+kd.alg+strconv.Itoa(kd.curve)] = true
 				}
 			case x < 6: // import
@@ -547,7 +548,8 @@ func (f *walletFam) Gen(r *hx.Run) {
 				}
 				ref := "new"
 				if len(ents) > 0 && g.Intn(6) == 0 {
-					ref = ents[g.Intn(len(ents))].sym // the same key again (duplicate address)
+					e := ents[g.Intn(len(ents))] // the same key again (duplicate address)
+					ref, kd = e.sym, e.kd
 				}
 				pw := pws()
 				if g.Intn(20) == 0 {
@@ -555,7 +557,7 @@ func (f *walletFam) Gen(r *hx.Run) {
 				}
 				out := r.Do(fmt.Sprintf("import %s %s %s %s %s %s %d", hx.Hex([]byte(labels())), ref, hx.Hex(pw), mode, kd.schemes[0], kd.alg, kd.curve))
 				if strings.HasPrefix(out, "ok A") {
-					ents = append(ents, ent{strings.Fields(out)[1], pw})
+					ents = append(ents, ent{strings.Fields(out)[1], pw, kd})
 					used["import:"+mode+":"+kd.alg+strconv.Itoa(kd.curve)] = true
 				}
 			case x < 10 && len(ents) > 0: // read with the right / a wrong password
